@@ -27,7 +27,7 @@ CHECKS["C16"] = {
     "rule": "A: all level names over {a,b} of length<=2 (thorough {a,b,c}, <=3) plus the empty level x all granted lists "
             "of <=3 such names, the empty list and '*' -> Message::checkLevel and Message::hasLevel. "
             "B: every ACL {default entry from the ACL '*' row | from --accesslevel} x default list x user list (lists of "
-            "<=2 names, empty, '*'; thorough: --accesslevel only with user lists of <=1 name) plus {no default entry} x "
+            "<=2 names, empty, '*'; thorough: both lists together <=3 names, --accesslevel only with user lists of <=1 name) plus {no default entry} x "
             "user lists of <=3 names; x authentication {none, right secret, wrong secret, missing secret, unknown user} x "
             "every message level x 16 forms {read NAME, read -c C NAME, read -f -c C NAME, read -m 86400 NAME, read -h, "
             "read -f -h, read -p, write -c, write -h, HTTP /data/C/NAME?required, HTTP /data/C/NAME (cached), "
